@@ -832,6 +832,25 @@ class CallsMixin:
             elif name == 'clear':
                 upd = K.empty_map(k.key, k.val)
         elif isinstance(k, K.Rec):
+            if name == 'pop':
+                sk = simp(args[0].t)
+                if not z3.is_string_value(sk) or sk.as_string() not in k.fields:
+                    raise Unsupported('record.pop with unknown key')
+                off, fk = k.slot(sk.as_string())
+                got = V(fk, base.terms[off + 1:off + 1 + fk.nleaves()])
+                terms = list(base.terms)
+                terms[off] = z3.BoolVal(False)
+                present = base.terms[off]
+                if len(args) > 1:
+                    dflt = K.coerce(args[1], fk) if not isinstance(args[1].kind, K._None) else None
+                    if dflt is None:
+                        raise Unsupported('record.pop with None default')
+                    res = self.ite(present, got, dflt)
+                else:
+                    self.implicit_raise(present, 'KeyError', 'dict.pop', node)
+                    res = got
+                self.assign_to(target, V(k, terms), node)
+                return res
             if name == 'get':
                 s = simp(args[0].t)
                 if not z3.is_string_value(s):
@@ -905,6 +924,8 @@ class CallsMixin:
             return K.empty_map(kind.key, kind.val)
         if pyobj.tag in ('emptyset', 'emptylist') and isinstance(kind, K.Set):
             return K.empty_set(kind.elem)       # e.g. a set-valued field reset with []
+        if pyobj.tag == 'emptydict' and isinstance(kind, K.Rec):
+            return V(kind, [t for f in kind.fields for t in [z3.BoolVal(False)] + kind.fields[f].default_terms()])
         if isinstance(kind, K.Opt):
             return K.opt_some(self.empty_of(kind.inner, pyobj))
         raise Unsupported('empty %s for %r' % (pyobj.tag, kind))
